@@ -2,6 +2,7 @@ use crate::error::Error;
 use crate::error::Error::{InvalidStringIndex, InvalidSyntax};
 use crate::number::Number;
 use crate::vm::Vm;
+use crate::vm::builtin::char::fold_case;
 use crate::vm::builtin::{pop_argc, pop_char, pop_index, pop_string, pop_usize, pop_vector};
 use crate::vm::vcell::VCell;
 use std::ops::DerefMut;
@@ -68,8 +69,16 @@ pub fn string_upcase(vm: &mut Vm) -> Result<VCell, Error> {
 pub fn string_foldcase(vm: &mut Vm) -> Result<VCell, Error> {
     pop_argc(vm, 1, Some(1), "string-foldcase")?;
     let s = pop_string(vm, "string-foldcase")?;
-    let s = s.borrow().to_lowercase();
+    let s = fold_string(s.borrow().as_str());
     Ok(VCell::string(s))
+}
+
+/// A string with the case of every character folded the way char-foldcase does: one
+/// character at a time, so that the result does not depend on where in the string a
+/// character stands (str::to_lowercase gives a capital sigma its final form at the
+/// end of a word).
+fn fold_string(s: &str) -> String {
+    s.chars().map(|c| fold_case(&c)).collect()
 }
 
 pub fn string_ref(vm: &mut Vm) -> Result<VCell, Error> {
@@ -370,31 +379,31 @@ pub fn string_gt_eq(vm: &mut Vm) -> Result<VCell, Error> {
 
 pub fn string_ci_eq(vm: &mut Vm) -> Result<VCell, Error> {
     string_comp(vm, "string-ci=?", |x, y| {
-        x.to_lowercase() == y.to_lowercase()
+        fold_string(x) == fold_string(y)
     })
 }
 
 pub fn string_ci_lt(vm: &mut Vm) -> Result<VCell, Error> {
     string_comp(vm, "string-ci<?", |x, y| {
-        x.to_lowercase() < y.to_lowercase()
+        fold_string(x) < fold_string(y)
     })
 }
 
 pub fn string_ci_gt(vm: &mut Vm) -> Result<VCell, Error> {
     string_comp(vm, "string-ci>?", |x, y| {
-        x.to_lowercase() > y.to_lowercase()
+        fold_string(x) > fold_string(y)
     })
 }
 
 pub fn string_ci_lt_eq(vm: &mut Vm) -> Result<VCell, Error> {
     string_comp(vm, "string-ci<=?", |x, y| {
-        x.to_lowercase() <= y.to_lowercase()
+        fold_string(x) <= fold_string(y)
     })
 }
 
 pub fn string_ci_gt_eq(vm: &mut Vm) -> Result<VCell, Error> {
     string_comp(vm, "string-ci>=?", |x, y| {
-        x.to_lowercase() >= y.to_lowercase()
+        fold_string(x) >= fold_string(y)
     })
 }
 
